@@ -1047,6 +1047,7 @@ void reb_integrator_whfast_synchronize(struct reb_simulation* const r){
                 reb_simulation_error(r, "WHFast kernel not implemented.");
                 return;
         };
+        REB_VERIF_YIELD("wh_sync_mid");
         if (ri_whfast->corrector2){
             reb_whfast_apply_corrector2(r, -1.);
         }
